@@ -1,4 +1,5 @@
 import TensorModel.Proto
+import TensorModel.Eng
 /-! Program interpreter of the model (M): one step of the line protocol → new state + output fields. -/
 namespace TM
 
@@ -6,6 +7,7 @@ structure PState where
   st : St := {}
   ds : Array Dense := #[]            -- dense objects by identity (pointer identity in Go)
   vars : Array (Option Nat) := #[]   -- program variable → object id (`none`: creation failed)
+  nnew : Nat := 0                    -- number of `new` steps so far (names the input buffers)
 deriving Inhabited
 
 inductive StepOut where
@@ -85,6 +87,106 @@ def runIterScript (t : Dense) (script : String) : Res (String × List Int) := do
     | _ => pure (it, "?" :: out, offs)) (it0, [], [])
   pure (String.intercalate "|" out.reverse, offs.reverse)
 
+def arithOps : List String := ["add", "sub", "mul", "div", "mod", "pow"]
+def ordCmpOps : List String := ["gt", "gte", "lt", "lte"]
+def eqCmpOps : List String := ["eq", "ne"]
+
+/-- first program variable bound to object `id` -/
+def PState.firstVar (ps : PState) (id : Nat) : String :=
+  match ps.vars.toList.findIdx? (· == some id) with
+  | some k => s!"${k}"
+  | none => "new"
+
+structure ParsedOpts where
+  o : Opts := {}
+  reuseId : Option Nat := none
+  incrId : Option Nat := none
+  bad : Bool := false
+
+def parseOpts (ps : PState) (toks : List String) : ParsedOpts :=
+  toks.foldl (fun acc t =>
+    if t == "unsafe" then { acc with o := { acc.o with unsafe_ := true } }
+    else if t == "same" then { acc with o := { acc.o with same := true } }
+    else if t == "safe" then acc
+    else if t.startsWith "reuse=" then
+      match ps.obj (t.drop 6).toString with
+      | some (id, d) => { acc with o := { acc.o with reuse := some d }, reuseId := some id }
+      | none => { acc with bad := true }
+    else if t.startsWith "incr=" then
+      match ps.obj (t.drop 5).toString with
+      | some (id, d) => { acc with o := { acc.o with incr := some d }, incrId := some id }
+      | none => { acc with bad := true }
+    else { acc with bad := true }) {}
+
+/-- a binary operand token: `$k` (tensor) or `#lit[:dt]` (Go scalar) -/
+inductive Operand where
+  | ten (id : Nat) (d : Dense)
+  | lit (tok : String) (dt : Option String)
+  | bad
+
+def parseOperand (ps : PState) (tok : String) : Operand :=
+  if tok.startsWith "$" then
+    match ps.obj tok with
+    | some (id, d) => .ten id d
+    | none => .bad
+  else if tok.startsWith "#" then
+    match ((tok.drop 1).toString.splitOn ":") with
+    | [l] => .lit l none
+    | [l, dt] => .lit l (some dt)
+    | _ => .bad
+  else .bad
+
+/-- apply the outcome of an engine call to the program state -/
+def applyEng (ps : PState) (aId : Nat) (po : ParsedOpts) (r : Res EngOut) : PState × StepOut :=
+  match r with
+  | .error (.err _) => (ps.failVar, .fields "r=err")
+  | .error (.panic _) => (ps.failVar, .stop "r=panic")
+  | .ok out =>
+    let ps := { ps with st := out.st }
+    let rid := match po.incrId with | some i => some i | none => po.reuseId
+    let ps := match rid, out.reuse with
+      | some i, some d => ps.setObj i d
+      | _, _ => ps
+    match out.ret with
+    | .a => let ps := ps.aliasVar aId; (ps, .fields s!"r=ok ident={ps.firstVar aId}")
+    | .reuse => match rid with
+      | some i => let ps := ps.aliasVar i; (ps, .fields s!"r=ok ident={ps.firstVar i}")
+      | none => (ps.failVar, .fields "r=ok ident=?")
+    | .fresh d => (ps.newVar d, .fields "r=ok ident=new")
+    | .failed => (ps.failVar, .fields "r=err")
+
+/-- scalar argument from a literal: a fresh one-cell header -/
+def litScalar (st : St) (tok : String) (dt : String) : St × ScalarArg :=
+  let (st, b) := st.alloc #[Val.lit s!"{tok}:{dt}"]
+  (st, { win := ⟨b, 0, 1, 1⟩, dt := dt })
+
+def stepBin (ps : PState) (op via a b : String) (optToks : List String) : PState × StepOut :=
+  let po := parseOpts ps optToks
+  if po.bad then (ps.failVar, .fields "r=skip") else
+  let isArith := arithOps.contains op
+  let tc := if isArith then numberTypes else if ordCmpOps.contains op then ordTypes else eqTypes
+  let vv (aId : Nat) (x y : Dense) :=
+    applyEng ps aId po (if isArith then engArithVV ps.st op tc x y po.o else engCmpVV ps.st op tc x y po.o)
+  let sc (st : St) (tId : Nat) (t : Dense) (s : ScalarArg) (left : Bool) :=
+    applyEng { ps with st := st } tId po
+      (if isArith then engArithScalar st op tc t s left po.o else engCmpScalar st op tc t s left po.o)
+  if !(isArith || ordCmpOps.contains op || eqCmpOps.contains op) then (ps.failVar, .fields "r=badprog") else
+  match parseOperand ps a, parseOperand ps b with
+  | .ten aId x, .ten bId y =>
+    if via == "meth" then vv aId x y
+    else if !isScalar y.shape && !isScalar x.shape then vv aId x y
+    else if !isScalar y.shape then
+      -- a is the scalar tensor: swap, leftTensor = false
+      sc ps.st bId y { win := x.win, dt := x.dt } false
+    else sc ps.st aId x { win := y.win, dt := y.dt } true
+  | .ten aId x, .lit l dt =>
+    let (st, s) := litScalar ps.st l (dt.getD x.dt)
+    sc st aId x s true
+  | .lit l dt, .ten bId y =>
+    let (st, s) := litScalar ps.st l (dt.getD y.dt)
+    sc st bId y s false
+  | _, _ => (ps.failVar, .fields "r=skip")
+
 def stepM (ps : PState) (stepIdx : Nat) (toks : List String) : PState × StepOut :=
   match toks with
   | ["new", dt, shape, order] =>
@@ -92,7 +194,8 @@ def stepM (ps : PState) (stepIdx : Nat) (toks : List String) : PState × StepOut
     | none => (ps.failVar, .fields "r=badprog")
     | some sh =>
       let n := (totalSize sh).toNat
-      let bid := ps.st.heap.size
+      let bid := ps.nnew
+      let ps := { ps with nnew := ps.nnew + 1 }
       let cells : Array Val := (Array.range n).map (fun i => Val.src bid i)
       match order with
       | "C" => finishNew ps (Dense.newRow ps.st dt sh cells)
@@ -134,7 +237,7 @@ def stepM (ps : PState) (stepIdx : Nat) (toks : List String) : PState × StepOut
     | _, _ => (ps, .fields "r=skip")
   | ["setat", v, coords] =>
     match ps.obj v, parseIntList coords with
-    | some (_, t), some c => (match t.setAt ps.st c (.lit s!"w{stepIdx}") with
+    | some (_, t), some c => (match t.setAt ps.st c (.lit s!"w{stepIdx}:{t.dt}") with
         | .ok st => ({ ps with st := st }, .fields "r=ok")
         | .error (.err _) => (ps, .fields "r=err")
         | .error (.panic _) => (ps, .stop "r=panic"))
@@ -183,7 +286,7 @@ def stepM (ps : PState) (stepIdx : Nat) (toks : List String) : PState × StepOut
     | _, _, _ => (ps.failVar, .fields "r=skip")
   | ["memset", v] =>
     match ps.obj v with
-    | some (_, t) => (match Dense.memset ps.st t (.lit s!"w{stepIdx}") with
+    | some (_, t) => (match Dense.memset ps.st t (.lit s!"w{stepIdx}:{t.dt}") with
         | .ok st => ({ ps with st := st }, .fields "r=ok")
         | .error (.err _) => (ps, .fields "r=err")
         | .error (.panic _) => (ps, .stop "r=panic"))
@@ -229,6 +332,7 @@ def stepM (ps : PState) (stepIdx : Nat) (toks : List String) : PState × StepOut
         | .error (.err _) => .fields "r=err"
         | .error (.panic _) => .stop "r=panic")
     | _, _ => (ps, .fields "r=skip")
+  | "bin" :: op :: via :: a :: b :: opts => stepBin ps op via a b opts
   | ["iter", v, script] =>
     match ps.obj v with
     | some (_, t) => (ps, match runIterScript t script with
